@@ -148,7 +148,6 @@ Qed.
 
 (* ------------------------------------------------------------------ buffer *)
 
-Definition ext_wf (e : ext_diag) : Prop := (e_len e <= length (e_buf e))%nat.
 
 Lemma ext_raw_visible e : ext_wf e -> ext_raw e = Ok (ext_visible e).
 Proof.
@@ -372,14 +371,6 @@ Proof.
   - destruct (IH _ _ T Hin) as (P & Q). split; [lia|exact Q].
 Qed.
 
-Definition block_explicit (raw : bytes) (b : lblock) : Prop :=
-  let h := nth (l_off b) raw 0 in
-  match l_blk b with
-  | BDevice d => h / 64 = 0 /\ l_len b = Z.to_nat (h mod 64) /\ d = firstn (l_len b - 1) (skipn (S (l_off b)) raw)
-  | BIdent d => h / 64 = 1 /\ l_len b = Z.to_nat (h mod 64) /\ d = firstn (l_len b - 1) (skipn (S (l_off b)) raw)
-  | BChannel c => h / 64 = 2 /\ l_len b = 3%nat /\
-                  c = chan_spec h (nth (l_off b + 1) raw 0) (nth (l_off b + 2) raw 0)
-  end.
 
 Lemma block_decode : forall raw fuel bs b, all_bytes raw -> blocks raw fuel = Ok bs -> In b bs ->
   (l_off b + l_len b <= length raw)%nat /\ block_explicit raw b.
@@ -417,3 +408,242 @@ Proof.
     rewrite E1, E2. repeat split; congruence.
   - discriminate.
 Qed.
+
+(* ------------------------------------------------------------------ channel byte decoding *)
+
+Lemma chan_error_eqb_sound a b : chan_error_eqb a b = true -> a = b.
+Proof.
+  destruct a, b; cbn; intros H; try discriminate H; try reflexivity; apply Z.eqb_eq in H; congruence.
+Qed.
+
+Lemma chan_error_eqb_refl a : chan_error_eqb a a = true.
+Proof. destruct a; cbn; try reflexivity; apply Z.eqb_refl. Qed.
+
+Lemma chan_dtype_eqb_sound a b : chan_dtype_eqb a b = true -> a = b.
+Proof. destruct a, b; cbn; intros H; try discriminate H; reflexivity. Qed.
+
+Definition dtype_okb (t : Z) (d : chan_dtype) : bool :=
+  if (1 <=? t) && (t <=? 6) then chan_dtype_disc d =? t else chan_dtype_eqb d DtInvalid.
+
+Definition error_okb (e : Z) (x : chan_error) : bool :=
+  (chan_error_to_byte2 x =? e) &&
+  (if (1 <=? e) && (e <=? 9) then opt_eqb (chan_error_disc x) (Some e)
+   else if 16 <=? e then chan_error_eqb x (CeVendor e) else chan_error_eqb x (CeReserved e)).
+
+Lemma dtype_okb_sound t d : dtype_okb t d = true -> dtype_as_specified t d.
+Proof.
+  unfold dtype_okb, dtype_as_specified. destruct ((1 <=? t) && (t <=? 6)); intros H.
+  - apply Z.eqb_eq, H.
+  - apply chan_dtype_eqb_sound, H.
+Qed.
+
+Lemma error_okb_sound e x : error_okb e x = true -> error_as_specified e x.
+Proof.
+  unfold error_okb, error_as_specified. intros H. apply andb_prop in H. destruct H as [A B]. split.
+  - apply Z.eqb_eq, A.
+  - destruct ((1 <=? e) && (e <=? 9)).
+    + destruct (chan_error_disc x) as [v|]; cbn [opt_eqb] in B; [|discriminate]. apply Z.eqb_eq in B. congruence.
+    + destruct (16 <=? e); apply chan_error_eqb_sound, B.
+Qed.
+
+Definition byte2_okb (b2 : Z) : bool :=
+  dtype_okb (b2 / 32) (chan_dtype_from_bits (b2 / 32)) &&
+  error_okb (b2 mod 32) (chan_error_from_code (b2 mod 32)) &&
+  (if b2 <? 32 then true
+   else Z.lor (chan_error_to_byte2 (chan_error_from_code (b2 mod 32)))
+              (chan_dtype_to_byte2 (chan_dtype_from_bits (b2 / 32))) =? b2).
+
+Lemma byte2_sweep b2 : is_byte b2 -> byte2_okb b2 = true.
+Proof. intros H. exact (sweep256 byte2_okb eq_refl b2 H). Qed.
+
+Lemma channel_decode : forall b0 b1 b2, is_byte b0 -> is_byte b1 -> is_byte b2 ->
+  let c := decode_channel b0 b1 b2 in
+  c_module c = b0 mod 64 /\ c_channel c = b1 mod 64 /\
+  c_input c = Z.testbit b1 6 /\ c_output c = Z.testbit b1 7 /\
+  dtype_as_specified (b2 / 32) (c_dtype c) /\
+  error_as_specified (b2 mod 32) (c_error c) /\
+  (32 <= b2 -> Z.lor (chan_error_to_byte2 (c_error c)) (chan_dtype_to_byte2 (c_dtype c)) = b2).
+Proof.
+  intros b0 b1 b2 H0 H1 H2. cbv zeta. rewrite decode_channel_spec by exact H1.
+  unfold chan_spec. cbn [c_module c_channel c_input c_output c_dtype c_error].
+  pose proof (byte2_sweep b2 H2) as S. unfold byte2_okb in S.
+  apply andb_prop in S. destruct S as [S R]. apply andb_prop in S. destruct S as [D E].
+  repeat split; try reflexivity.
+  - apply dtype_okb_sound, D.
+  - apply (error_okb_sound _ _ E).
+  - apply (error_okb_sound _ _ E).
+  - intros Hge. destruct (Z.ltb_spec b2 32) as [C|_]; [lia|]. apply Z.eqb_eq, R.
+Qed.
+
+Lemma ident_ones_spec d i :
+  In i (ident_ones d) <->
+  (i < 8 * length d)%nat /\ Z.testbit (nth (i / 8) d 0) (Z.of_nat (i mod 8)) = true.
+Proof.
+  unfold ident_ones. rewrite filter_In, in_seq. split; intros [A B]; split; try assumption; lia.
+Qed.
+
+(* ------------------------------------------------------------------ the oracle accepts the model *)
+
+Lemma bytes_eqb_refl l : bytes_eqb l l = true.
+Proof. induction l as [|x l IH]; cbn [bytes_eqb]; [reflexivity|]. rewrite Z.eqb_refl, IH. reflexivity. Qed.
+
+Lemma block_eqb_refl b : block_eqb b b = true.
+Proof.
+  destruct b as [d|c|d]; cbn [block_eqb]; try apply bytes_eqb_refl.
+  unfold chan_eqb, chan_dtype_eqb. rewrite !Z.eqb_refl, !testbit_eqb_refl, chan_error_eqb_refl. reflexivity.
+Qed.
+
+Lemma tiles_tilesb : forall raw bs off, tiles raw off bs -> tilesb raw off (map l_blk bs) = true.
+Proof.
+  intros raw. induction bs as [|b r IH]; intros off H; cbn [tiles map tilesb] in *.
+  - rewrite H. reflexivity.
+  - destruct H as (O & A & _ & _ & D & T). rewrite A, D, block_eqb_refl. cbn [andb]. apply IH, T.
+Qed.
+
+Lemma tiles_oracle : forall raw fuel bs, all_bytes raw -> blocks raw fuel = Ok bs ->
+  c17_tiles_ok raw (map l_blk bs) = true.
+Proof. intros raw fuel bs Hb Hr. apply tiles_tilesb. eapply blocks_tile; eassumption. Qed.
+
+(* ------------------------------------------------------------------ container level *)
+
+
+Lemma ext_blocks_available e : ext_ok e -> ext_available e = true ->
+  exists bs, ext_blocks e = Ok bs /\ tiles (firstn (e_len e) (e_buf e)) 0 bs /\ (length bs <= e_len e)%nat.
+Proof.
+  intros [Hwf Hb] Ha. unfold ext_blocks. rewrite ext_raw_visible by exact Hwf.
+  unfold ext_visible. rewrite Ha. cbn [bind].
+  pose proof (all_bytes_firstn (e_buf e) (e_len e) Hb) as Hr.
+  destruct (iter_total _ (S (length (firstn (e_len e) (e_buf e)))) Hr ltac:(lia)) as (bs & E & L).
+  exists bs. split; [exact E|]. split; [eapply blocks_tile; eassumption|].
+  rewrite firstn_length_le in L by exact Hwf. exact L.
+Qed.
+
+(* iterating a container without buffer: next() unwraps raw_diag_buffer() = None *)
+Lemma ext_blocks_unavailable e : ext_available e = false -> ext_blocks e = Panic SiteUnwrap.
+Proof. intros Ha. unfold ext_blocks, ext_raw. rewrite Ha. reflexivity. Qed.
+
+Lemma ext_debug_total e : ext_ok e -> ext_debug e = Ok tt.
+Proof.
+  intros Hok. unfold ext_debug. destruct (ext_available e) eqn:Ha; [|reflexivity].
+  destruct (ext_blocks_available e Hok Ha) as (bs & E & _). rewrite E. reflexivity.
+Qed.
+
+Lemma fill_ok_preserved e ext e' ok : ext_ok e -> all_bytes ext -> ext_fill e ext = Ok (e', ok) -> ext_ok e'.
+Proof.
+  intros [Hwf Hb] He Hf. destruct (fill_spec e ext Hwf) as (e2 & ok2 & E & Hwf2 & _ & _ & _ & Hno).
+  rewrite E in Hf. injection Hf as <- <-. split; [exact Hwf2|].
+  revert E. unfold ext_fill.
+  destruct (Nat.eqb (ext_cap e) 0); [intros E; injection E as <- _; exact Hb|].
+  destruct (Nat.ltb (ext_cap e) (length ext)); [intros E; injection E as <- _; exact Hb|].
+  destruct (slice_to (e_buf e) (length ext)); cbn [bind]; intros E; try discriminate.
+  injection E as <- _. cbn [e_buf]. apply Forall_app. split; [exact He|apply all_bytes_skipn, Hb].
+Qed.
+
+(* ------------------------------------------------------------------ a reply to Slave_Diag *)
+
+
+Lemma ext_flag_bit x y : is_byte x -> is_byte y -> flag_set (x + 256 * y) 8 = Z.testbit x 3.
+Proof.
+  intros Hx Hy. unfold flag_set.
+  assert (S : forallb (fun y => forallb (fun x => Bool.eqb (Z.land (x + 256 * y) 8 =? 8) (Z.testbit x 3)) range256) range256 = true)
+    by (vm_compute; reflexivity).
+  pose proof (sweep256 _ S y Hy) as S1. cbv beta in S1.
+  pose proof (sweep256 _ S1 x Hx) as S0. cbv beta in S0.
+  apply Bool.eqb_prop, S0.
+Qed.
+
+Lemma diag_eqb_refl d : diag_eqb d d = true.
+Proof.
+  destruct d as [d|]; cbn [diag_eqb]; [|reflexivity]. rewrite !Z.eqb_refl.
+  destruct (d_master d); cbn [opt_eqb andb]; [apply Z.eqb_refl|reflexivity].
+Qed.
+
+Lemma opt_bytes_eqb_refl o : opt_bytes_eqb o o = true.
+Proof. destruct o; cbn [opt_bytes_eqb]; [apply bytes_eqb_refl|reflexivity]. Qed.
+
+Lemma reply_spec : forall s r, ext_ok (p_ext s) -> reply_bytes r ->
+  exists s' acc, diag_reply s r = Ok (s', acc) /\
+    ext_ok (p_ext s') /\ ext_cap (p_ext s') = ext_cap (p_ext s) /\
+    acc = reply_accepted r /\
+    (acc = false -> s' = s) /\
+    c17_reply_ok (ext_cap (p_ext s)) (p_diag s) (ext_visible (p_ext s)) r
+                 (p_diag s') (ext_visible (p_ext s')) = true.
+Proof.
+  intros s r Hok Hb.
+  assert (Same : c17_reply_ok (ext_cap (p_ext s)) (p_diag s) (ext_visible (p_ext s)) r
+                              (p_diag s) (ext_visible (p_ext s)) = true \/ reply_accepted r = true).
+  { destruct (reply_accepted r) eqn:Acc; [right; reflexivity|left].
+    unfold c17_reply_ok. destruct r as [dsap ssap pdu|]; [rewrite Acc|];
+      rewrite diag_eqb_refl, opt_bytes_eqb_refl; reflexivity. }
+  destruct r as [dsap ssap pdu|].
+  2:{ exists s, false. cbn [diag_reply reply_accepted]. destruct Same as [Sm|C]; [|discriminate].
+      repeat split; try assumption; try reflexivity. apply Hok. apply Hok. }
+  cbn [reply_bytes] in Hb. cbn [diag_reply reply_accepted] in *.
+  destruct (opt_eqb dsap SAP_MASTER_MS0) eqn:Ed; cbn [negb andb] in *.
+  2:{ exists s, false. destruct Same as [Sm|C]; [|discriminate].
+      repeat split; try assumption; try reflexivity; apply Hok. }
+  destruct (opt_eqb ssap SAP_SLAVE_DIAGNOSIS) eqn:Es; cbn [negb andb] in *.
+  2:{ exists s, false. destruct Same as [Sm|C]; [|discriminate].
+      repeat split; try assumption; try reflexivity; apply Hok. }
+  destruct (header_faithful pdu Hb) as [[Hs E]|[Hl (d & E & Hid & Hm & Hbits & H10 & Hfl & Hr)]]; rewrite E; cbn [bind].
+  - exists s, false. destruct (Nat.leb_spec 6 (length pdu)) as [C|_]; [lia|].
+    destruct Same as [Sm|C]; [|discriminate].
+    repeat split; try assumption; try reflexivity; apply Hok.
+  - destruct (Nat.leb_spec 6 (length pdu)) as [_|C]; [|lia].
+    pose proof (header_oracle pdu (Some d) Hb E) as Hho.
+    assert (Hflag : flag_set (d_flags d) FLAG_EXT_DIAG = Z.testbit (nth 0 pdu 0) 3).
+    { rewrite Hfl. unfold FLAG_EXT_DIAG. apply ext_flag_bit.
+      - apply all_bytes_nth, Hb.
+      - pose proof (land251_range (nth 1 pdu 0) (all_bytes_nth pdu 1 Hb)). unfold is_byte. lia. }
+    unfold c17_reply_ok, reply_accepted. rewrite Ed, Es. cbn [andb].
+    destruct (Nat.leb_spec 6 (length pdu)) as [_|C]; [|lia].
+    assert (Hsap : forall o, opt_eqb o o = true) by (intros [x|]; cbn; [apply Z.eqb_refl|reflexivity]).
+    destruct (flag_set (d_flags d) FLAG_EXT_DIAG) eqn:F.
+    + unfold slice_from, diag_ext_pos. destruct (Nat.leb_spec 6 (length pdu)) as [_|C]; [|lia]. cbn [bind].
+      destruct Hok as [Hwf Hbuf].
+      destruct (fill_spec (p_ext s) (skipn 6 pdu) Hwf) as (e' & ok & Ef & Hwf' & Hcap & Hokv & Hst & Hno).
+      pose proof (fill_ok_preserved _ _ _ _ (conj Hwf Hbuf) (all_bytes_skipn pdu 6 Hb) Ef) as Hok'.
+      rewrite Ef. cbn [bind fst snd].
+      assert (Hd : (if ok then ext_debug e' else Ok tt) = Ok tt)
+        by (destruct ok; [apply ext_debug_total, Hok'|reflexivity]).
+      rewrite Hd. cbn [bind]. eexists _, true. split; [reflexivity|].
+      cbn [p_ext p_diag]. repeat split; try assumption; try discriminate; try apply Hok'.
+      rewrite Hho. cbn [andb]. rewrite <- Hflag. cbn [andb].
+      rewrite skipn_length in Hokv. rewrite <- Hokv.
+      destruct ok.
+      * destruct (Hst eq_refl) as [V _]. rewrite V. apply opt_bytes_eqb_refl.
+      * rewrite (Hno eq_refl). apply opt_bytes_eqb_refl.
+    + eexists _, true. split; [reflexivity|]. cbn [p_ext p_diag].
+      repeat split; try apply Hok; try discriminate.
+      rewrite Hho. cbn [andb]. rewrite <- Hflag. cbn [andb]. apply opt_bytes_eqb_refl.
+Qed.
+
+Lemma replies_total : forall rs s, ext_ok (p_ext s) -> Forall reply_bytes rs ->
+  exists l, diag_replies s rs = Ok l /\ length l = length rs.
+Proof.
+  induction rs as [|r rs IH]; intros s Hok Hb; cbn [diag_replies].
+  - exists []. split; reflexivity.
+  - inversion Hb as [|x y Hr Hrs]; subst.
+    destruct (reply_spec s r Hok Hr) as (s' & acc & E & Hok' & _). rewrite E. cbn [bind fst].
+    destruct (IH s' Hok' Hrs) as (l & El & Hl). rewrite El. cbn [bind].
+    eexists. split; [reflexivity|]. cbn [length]. lia.
+Qed.
+
+Lemma scan_oracle : forall dsap ssap pdu r, all_bytes pdu -> scan_reply (RData dsap ssap pdu) = Ok r ->
+  (r = None \/ (opt_eqb dsap SAP_MASTER_MS0 = true /\ opt_eqb ssap SAP_SLAVE_DIAGNOSIS = true /\ c17_scan_ok pdu r = true)).
+Proof.
+  intros dsap ssap pdu r Hb. cbn [scan_reply].
+  destruct (opt_eqb dsap SAP_MASTER_MS0); cbn [negb]; [|intros E; injection E as <-; left; reflexivity].
+  destruct (opt_eqb ssap SAP_SLAVE_DIAGNOSIS); cbn [negb]; [|intros E; injection E as <-; left; reflexivity].
+  destruct (header_faithful pdu Hb) as [[Hs E]|[Hl (d & E & Hid & Hm & _)]]; rewrite E; cbn [bind];
+    intros R; injection R as <-.
+  - left. reflexivity.
+  - right. repeat split. unfold c17_scan_ok. rewrite Hid, Hm, Z.eqb_refl.
+    assert (Ho : forall o, opt_eqb o o = true) by (intros [x|]; cbn; [apply Z.eqb_refl|reflexivity]).
+    rewrite Ho, !andb_true_r. apply Nat.leb_le, Hl.
+Qed.
+
+Lemma f5_unfixed_panics :
+  blocks_from_g false [0] 0 2 = Panic SiteIndex /\ blocks_from_g false [64] 0 2 = Panic SiteIndex /\
+  blocks_from_g false [2; 3; 0] 0 4 = Panic SiteIndex.
+Proof. repeat split; vm_compute; reflexivity. Qed.
